@@ -28,6 +28,7 @@ package memfs
 import (
 	"io/fs"
 	"os"
+	"strings"
 	"time"
 
 	"github.com/avfs/avfs"
@@ -799,6 +800,11 @@ func (vfs *MemFS) Rename(oldpath, newpath string) error {
 
 	switch oChild.(type) {
 	case *dirNode:
+		// The root directory can't be renamed and a directory can't be moved into itself.
+		if oChild == node(oParent) || strings.HasPrefix(nPI.Path(), oPI.Path()+string(vfs.PathSeparator())) {
+			return &os.LinkError{Op: op, Old: oldpath, New: newpath, Err: vfs.err.InvalidArgument}
+		}
+
 		if !vfs.isNotExist(nErr) {
 			if vfs.OSType() == avfs.OsWindows {
 				nErr = avfs.ErrWinAccessDenied
